@@ -36,10 +36,10 @@ def enc_str_list(l):
 # CODE VARIANT FLAGS — the variant of the code the model is compared with (Model/Console.lean `Variant`).
 # Values match TODAY's /repo.
 # (For checking a pending fix:  VERIF_REPO=<worktree> VERIF_C15_FLAGS=<4 digits> ./check C15  overrides them for one run.)
-RECORD_IN_RENDER = 1  # 1: `_render_buffer` appends to the record, so `end_capture` records (F17).  0: repaired.
+RECORD_IN_RENDER = 0  # 1: `_render_buffer` appends to the record, so `end_capture` records (F17).  0: repaired.
 MERGE_CTL = 0  # 0: Segment.simplify never merges into/after a control segment (F18 repaired in b97fe77).
-ESCAPE_HREF = 0  # 0: export_html writes style.link verbatim into href="…".  1: repaired (html.escape).
-CAPTURE_MARKS = 0  # 0: end_capture returns (and empties) the whole thread buffer, so nested blocks steal.  1: repaired.
+ESCAPE_HREF = 1  # 0: export_html writes style.link verbatim into href="…".  1: repaired (html.escape).
+CAPTURE_MARKS = 1  # 0: end_capture returns (and empties) the whole thread buffer, so nested blocks steal.  1: repaired.
 
 if os.environ.get("VERIF_C15_FLAGS"):
     RECORD_IN_RENDER, MERGE_CTL, ESCAPE_HREF, CAPTURE_MARKS = (int(ch) for ch in os.environ["VERIF_C15_FLAGS"])
